@@ -168,13 +168,13 @@ def gen_cases(rng, tier, budget):
     for ns in [0, 1, 2, 0x7fff, 0x8000, 0xffff]:
         for nr in [0, 1, 0x8000]:
             cases.append("sccrq %d %d" % (ns, nr))
-    nrand = (budget or 2500) if quick else (budget or 40000)
+    nrand = (budget or 6000) if quick else (budget or 40000)
     profs = sorted(PROFILES)
     for i in range(nrand):
         prof = profs[i % len(profs)]
         cases.append(gen_pair(rng, rng.choice([8, 20, 40, 80]), prof, hostile=(i % 7 == 0)))
     # long runs crossing the 16-bit wrap with many messages
-    for i in range(20 if quick else 300):
+    for i in range(40 if quick else 300):
         cases.append(gen_pair(rng, 400, profs[i % len(profs)], nmsg=60))
     cases += enum_cases(4 if quick else 5)
     return cases
